@@ -257,7 +257,10 @@ register("C02",
           e2e_part("C02", P_DEFAULT + [("p", {"p_extra_params": 0.95, "max_structs": 4, "units": [2, 3], "p_func": 0.2, "p_iface_root": 0.8,
                                                 "p_iface_arg": 0.4, "p_conc_arg": 0.8, "p_twin": 0.0})], _pairs_c02,
                    {"C02", "C11", "C12", "C13"}, lambda ur: len((ur.impl or "").split()) >= 3,
-                   n_quick=120, n_thorough=1000)])
+                   n_quick=120, n_thorough=1000),
+          # several injectors of one package whose designated sources are values of one type (differing only inside
+          # literal braces, or only in the package that wrote them): each gets the value of its own source
+          lambda rep, tier: __import__("vlib.c13tier", fromlist=["x"]).run_pairs(rep, tier)])
 register("C11",
          "unit tier: random programs containing interface bindings (non-trivial); e2e tier: value/pointer receivers, "
          "bindings to providers / struct providers / values / arguments / fields, consumers of I and of C; "
@@ -608,7 +611,10 @@ register("C01",
           e2e_part("C01", [("u", {"plant": ["unexported"], "plant_p": 1.0, "units": [1, 2], "max_structs": 8})],
                    lambda ur: [] if _planted(ur) else _pairs_plan(ur), {"C01"}, _planted,
                    n_quick=120, n_thorough=800, build=True, runit=False, extra=_planted_oracle({"unexported": "unexported:"})),
-          _c01_spellings, _c01_internal])
+          _c01_spellings, _c01_internal,
+          # unit tier: the real importableFrom (internal-package rule) and unvendor against the model
+          stream_part("C01", lambda tier: [("paths", "paths", ["-seed", seed(), "-n", 4000 if tier == "quick" else 60000])],
+                      nontrivial=lambda case, im: "importable" in case.get("raw", [""])[1:2] or "internal" in " ".join(case.get("raw", [])))])
 
 
 def _wellformed_extra(rep, units, info):
